@@ -1,5 +1,5 @@
 (* Minimal finite-difference stencil model needed by the deformation regularisers (C17):
-   core/image.py finite_differences (mode forward_central_backward) and the zero-padded
+   core/image.py finite_differences (mode forward_central_backward) and the replicate-padded
    [1,w,1]/(w+2) cross smoothing of spatial_derivatives(mode='sobel' | 'prewitt').
    A scalar image is a function of the multi-index (x, y, ...) -- x first --, total on Z^D; the
    lattice is the box 0 <= i_d < n_d.  Definitions only. *)
@@ -57,12 +57,12 @@ Definition fd (sh : list Z) (h : K) (d : nat) (f : img) : img :=
     else if Z.eqb c (n - 1) then (f i - f (shift d i (-1))) / h
     else (f (shift d i 1) - f (shift d i (-1))) / (h * (1 + 1)).
 
-(* conv1d with kernel [1, w, 1] / (w + 2) along axis d, zero padding *)
-Definition zp (sh : list Z) (d : nat) (f : img) (i : idx) : K :=
-  let c := get d i in
-  if Z.leb 0 c && Z.ltb c (nth d sh 0%Z) then f i else 0.
+(* conv1d with kernel [1, w, 1] / (w + 2) along axis d, replicate padding (PaddingMode.REPLICATE): the neighbour of a
+   boundary sample is the sample itself *)
+Definition cshift (sh : list Z) (d : nat) (i : idx) (k : Z) : idx :=
+  upd d i (Z.max 0 (Z.min (nth d sh 0%Z - 1) (get d i + k))).
 Definition smooth (sh : list Z) (w : K) (d : nat) (f : img) : img :=
-  fun i => (zp sh d f (shift d i (-1)) + w * f i + zp sh d f (shift d i 1)) / (w + (1 + 1)).
+  fun i => (f (cshift sh d i (-1)) + w * f i + f (cshift sh d i 1)) / (w + (1 + 1)).
 
 Definition smooth_others (sh : list Z) (w : K) (d : nat) (f : img) : img :=
   fold_left (fun g e => if Nat.eqb e d then g else smooth sh w e g) (seq 0 (length sh)) f.
